@@ -67,6 +67,35 @@ Theorem C38_generic_clause_needed :
 Proof. exact no_generic_clause_blocks. Qed.
 Print Assumptions C38_generic_clause_needed.
 
+(* Caller-thread paths.  start_client(timeout=..) returns normally when the peer merely stalls, so
+   the public methods the application calls next (get_remote_server_key - used by
+   SSHClient.connect -, auth_*, ensure_session) must themselves refuse with SSHException unless
+   the transport is live AND its first key exchange is complete.  The guard tests are generated. *)
+Theorem C38_session_guards :
+  forall g active kex_done, In g session_guards -> active && kex_done = false ->
+    api_guarded (snd g) active kex_done = Raises SSHExc.
+Proof. exact session_guards_raise. Qed.
+Print Assumptions C38_session_guards.
+
+(* Every place where stored peer bytes are decoded as text on the caller's thread (generated
+   list: u / .decode / get_text / get_list in code reachable from the public API without going
+   through run) either turns UnicodeDecodeError into an SSHException or is a registered known
+   finding; a guarded site only ever raises an allowed class. *)
+Theorem C38_caller_sites :
+  (forall s, In s caller_sites -> snd s = true \/ existsb (zlist_eqb (fst s)) known_unguarded = true) /\
+  (forall valid, match caller_decode true valid with Some e => allowed e = true | None => True end).
+Proof. exact (conj caller_sites_guarded_or_known guarded_site_allowed). Qed.
+Print Assumptions C38_caller_sites.
+
+(* why a guard is needed at such a site *)
+Theorem C38_unguarded_site_refuted : caller_decode false false = Some UnicodeErr /\ allowed UnicodeErr = false.
+Proof. exact unguarded_site_leaks. Qed.
+Print Assumptions C38_unguarded_site_refuted.
+
+Example C38_guards_nonvacuous :
+  session_guards <> [] /\ forall g, In g session_guards -> api_guarded (snd g) true true = Returns.
+Proof. split; [vm_compute; discriminate | exact session_guards_pass]. Qed.
+
 (* non-vacuity: the generated table does contain handlers that decode text and handlers that
    loop over a peer-supplied count *)
 Example C38_handlers_nonvacuous :
